@@ -113,7 +113,7 @@ def run(ctx):
     first = True
     for allow, ss in groups.items():
         # (one family per environment switch setting; results accumulate in ctx)
-        scen.run_family(ctx, ss, names=NAMES, allow=allow, mc_invariants=["CleanupBeforeEnd", "NoStepAfterEnd", "AtMostOnce"], mc_properties=["ThreadsDoNotBlockEnd"], per_shape=14 if thorough else 5, depth=45, label="c02" + "".join(a[:2] for a in allow), script_hook=add_block, extra_scenarios=(extra if first else ()))
+        scen.run_family(ctx, ss, names=NAMES, allow=allow, mc_invariants=["CleanupBeforeEnd", "NoStepAfterEnd", "AtMostOnce"], mc_properties=["ThreadsDoNotBlockEnd"], per_shape=40 if thorough else 5, depth=45, label="c02" + "".join(a[:2] for a in allow), script_hook=add_block, extra_scenarios=(extra if first else ()))
         first = False
     ctx.extra["rule"] = "shapes = termination trigger (failing payload of each flavour: Exception / value / BaseException / KeyboardInterrupt; SIGINT; shutdown()) x population of running coroutine payloads (sleeping / spinning, sync and shielded cleanup 0..2 steps, adopted from threads or other payloads) x blocked thread payload; TLC-simulated behaviours per shape"
     ctx.assumptions = RT_ASSUMPTIONS + ["generated payloads have finite cleanup and do not swallow cancellation"]
